@@ -252,19 +252,28 @@ Proof.
                                  | Some (VBytes (x :: b)) => [(off0, x :: b)]
                                  | _ => []
                                  end) (k * Sz) <> []).
-      { apply (flat_map_full _ (fun x => ltac:(destruct (fetch c1 hits (KSub name x (subrange_end x Sz size))) as [[[|? ?]| | |]|]; simpl; lia)) offs); [|exact Hknown].
-        unfold h0, h0_of in Elt. lia. }
+      { assert (Hf1 : forall x0, (length (match fetch c1 hits (KSub name x0 (subrange_end x0 Sz size)) with
+                                                 | Some (VBytes (x :: b)) => [(x0, x :: b)]
+                                                 | _ => []
+                                                 end) <= 1)%nat).
+        { intro x0. destruct (fetch c1 hits (KSub name x0 (subrange_end x0 Sz size))) as [[[|? ?]| | |]|]; simpl; lia. }
+        apply (flat_map_full _ Hf1 offs); [|exact Hknown].
+        apply Nat2Z.inj_le. exact Elt. }
       destruct (hget h0 (k * Sz)) as [b|] eqn:E0; [f_equal; apply Hh0; exact E0|]. exfalso.
       cbv beta in Hne.
       destruct (fetch c1 hits (KSub name (k * Sz) (subrange_end (k * Sz) Sz size))) as [[[|x bb]| | |]|] eqn:Ef; try congruence.
       apply (in_hget h0 (k * Sz) (x :: bb)); [|exact E0].
-      unfold h0, h0_of. apply in_flat_map. exists (k * Sz). split; [exact Hknown|]. rewrite Ef. left. reflexivity. }
-  destruct Hfetched as (h & st & calls & Hf & Hst & Htot). rewrite Hf. cbn [fst snd].
+      unfold h0, h0_of. apply in_flat_map. exists (k * Sz). split; [exact Hknown|]. unfold size in Ef. rewrite Ef. left. reflexivity. }
+  destruct Hfetched as (h & st & calls & Hf & Hst & Htot).
+  match goal with
+  | |- context [if ?c then ?a else ?b] =>
+      replace (if c then a else b) with (Some (h, st, calls)) by (symmetry; exact Hf)
+  end.
+  cbn [fst snd].
   split.
-  - rewrite (read_loop_ok obj Sz HS h ks ke Htot W1); try lia.
-    + simpl. rewrite Hobj. unfold under_get_range. fold size.
-      replace (size <? off) with false by (symmetry; apply Z.ltb_ge; lia).
-      f_equal. f_equal. exact L3.
-    + rewrite Hoffs_len. fold ks. lia.
+  - rewrite (read_loop_ok obj Sz HS h ks ke Htot W1); try lia; try (rewrite Hoffs_len; fold ks; lia).
+    simpl. unfold under_get_range. fold size.
+    replace (size <? off) with false by (symmetry; apply Z.ltb_ge; lia).
+    f_equal. f_equal. exact L3.
   - apply (fold_store_ok w listing name obj Hobj Sz); assumption.
 Qed.
